@@ -428,7 +428,7 @@ func entryLockset(fn *ssa.Function, depth int) LockSet {
 				}
 				ad := Desc(a)
 				if m == ad || strings.HasPrefix(m, ad+".") {
-					tr[fn.Params[i].Name()+strings.TrimPrefix(m, ad)] = kind
+					tr[PN(fn.Params[i])+strings.TrimPrefix(m, ad)] = kind
 				}
 			}
 			if !strings.Contains(m, ".") {
